@@ -418,7 +418,9 @@ func newRecordIterators(ctx *Context, structType reflect.Type, name string) (typ
 		context.EventReceiver.OnRecord(identifier)
 		for _, field := range fields {
 			fieldValue := field.getValueFromStruct(value)
-			if shouldIncludeField(field, fieldValue, ctx.Configuration.Iterator.DefaultFieldOmitBehavior) {
+			// A record must supply a value for every field its record type
+			// declares, so use the same inclusion test as the type iterator.
+			if shouldIncludeField(field, dummyValue, ctx.Configuration.Iterator.DefaultFieldOmitBehavior) {
 				field.Iterate(context, fieldValue)
 			}
 		}
